@@ -190,6 +190,18 @@ def _check_lookup(case):
         want = 0
     if not _same(got, want):
         return '%s(%r, %r, %r, %r) = %r, expected %r' % (kind, val, table, idx, approx, got, want)
+    if kind in ('VLOOKUP', 'HLOOKUP'):
+        # an index below 1 addresses nothing (#VALUE!), whatever the key
+        from formulas.tokens.operand import VALUE
+        for bad in (0, -1):
+            g = _val(F[kind](val, _A(table), bad, approx))
+            if g is not VALUE:
+                return '%s(%r, %r, %r, %r) = %r, expected #VALUE! (no row / column %d)' % (kind, val, table, bad, approx, g, bad)
+        if not approx:
+            # a blank range_lookup counts as FALSE (exact match)
+            g = _val(F[kind](val, _A(table), idx, sh.EMPTY))
+            if not _same(g, want):
+                return '%s(%r, %r, %r, <blank>) = %r, expected %r (a blank range_lookup is FALSE)' % (kind, val, table, idx, g, want)
     if kind in ('VLOOKUP', 'HLOOKUP') and approx is True:          # range_lookup left out: TRUE is the default
         got = _val(F[kind](val, _A(table), idx))
         if not _same(got, want):
@@ -263,7 +275,7 @@ def _cases(tier, rng):
         else:
             val = rng.choice(['aaa', 'zzz', rng.choice(keys), rng.choice(keys).lower(), rng.choice(keys).upper(), 'cow'])
         out.append(('match', val, keys, mt, rng.choice(['row', 'col'])))
-    pool = [1, 2, 2, 3.5, 'a', 'A', 'b', 'ab', 'abc', 'bcd', 'bc', True, False, sh.EMPTY, 0, -1]
+    pool = [1, 2, 2, 3.5, 'a', 'A', 'b', 'ab', 'abc', 'bcd', 'bc', True, False, sh.EMPTY, 0, -1, 'ab ', ' ab', 'a b']
     wild = ['a*', '?', 'b?', '*c', 'a?c', '*b*', 'a~*', 'ab', 'B', '~?']
     for _ in range(n):
         k = rng.randrange(1, 7)
@@ -272,6 +284,9 @@ def _cases(tier, rng):
         if val is sh.EMPTY:
             val = 0
         out.append(('match', val, keys, 0, rng.choice(['row', 'col'])))
+    # the text "empty" is not a blank cell (KF-C19-4: the blank token spells 'empty')
+    out.append(('match', 'empty', [sh.EMPTY, 1], 0, 'row'))
+    out.append(('match', 'EMPTY', [2, sh.EMPTY], 0, 'col'))
     for _ in range(n // 3):
         nr, nc = rng.randrange(1, 7), rng.randrange(1, 7)
         table = [[rng.choice([1, 2.5, 'x', True, sh.EMPTY, 'y', -3]) for _ in range(nc)] for _ in range(nr)]
@@ -345,6 +360,8 @@ def _check(case):
 
 
 def _classify(case, detail):
+    if case[0] == 'match' and isinstance(case[1], str) and case[1].upper() == 'EMPTY' and any(k is sh.EMPTY for k in case[2]):
+        return 'KF-C19-4'
     if case[0] == 'crit':
         from formulas.tokens.operand import XlError
         if any(isinstance(v, XlError) for v in case[1]) and '#VALUE!' in detail:
